@@ -215,3 +215,21 @@ let rec val_of (x : sexp) : pyval =
   | L (A "repr" :: r) -> VRepr (cps r)
   | _ -> failwith "val"
 let optz = function A "none" -> None | x -> Some (zint x)
+
+(* ---- object graphs ---- *)
+let fault_of = function "none" -> FNone | "raise" -> FRaise | "after" -> FRaiseAfter | "nondoc" -> FNonDoc
+  | _ -> failwith "fault"
+let gnode_of = function
+  | L [A "leaf"; v] -> GLeaf (val_of v)
+  | L (A "list" :: l) -> GList (List.map natv l)
+  | L (A "tuple" :: l) -> GTuple (List.map natv l)
+  | L (A "dict" :: l) -> GDict (List.map (function L [k; v] -> (natv k, natv v) | _ -> failwith "gkv") l)
+  | L [A "user"; c; A f; L args] -> GUser (cls_of_sexp c, List.map natv args, fault_of f)
+  | _ -> failwith "gnode"
+let ginfo_of (l : sexp list) : ginfo =
+  let mk = Hashtbl.create 16 and rp = Hashtbl.create 16 in
+  List.iteri (fun i x -> match x with
+    | L [L m; L r] -> Hashtbl.replace mk i (cps m); Hashtbl.replace rp i (cps r)
+    | _ -> failwith "ginfo") l;
+  { gi_marker = (fun r -> try Hashtbl.find mk (int_of_nat r) with Not_found -> []);
+    gi_repr = (fun r -> try Hashtbl.find rp (int_of_nat r) with Not_found -> []) }
